@@ -166,10 +166,13 @@ def dearmor(txt, kind=b"PGP SIGNATURE"):
     # base64 body: up to its padding; the CRC-24 line ("=XXXX") that may follow is optional and not content (RFC 4880 §6.1)
     mm = re.match(rb"\A([A-Za-z0-9+/ \t\r\n]*)(={0,2})", parts[1])
     data = re.sub(rb"[ \t\r\n]", b"", mm.group(1))
-    data += b"=" * (-len(data) % 4)
     rest = parts[1][mm.end():]
+    # whatever follows the last well-formed base64 quantum (CRC line, line noise before it, a damaged END line) is armor framing, not
+    # signature: the decoded octets are the signature, and the callers require them to parse into complete packets, so a body that is
+    # cut short by noise in its middle still yields no view (and an accepting verifier is then reported)
     if not mm.group(2) and rest.strip() and not rest.lstrip().startswith(b"="):
-        raise PgpError("garbage in armor body")
+        data = data[:len(data) - len(data) % 4]
+    data += b"=" * (-len(data) % 4)
     try:
         raw = base64.b64decode(data, validate=True)
     except (binascii.Error, ValueError) as e:
